@@ -463,6 +463,10 @@ func valueSweeps() {
 	sweep("long-payload", b, e)
 	b, e = smfgen.ManyEvents()
 	sweep("many-events", b, e)
+	b, e = smfgen.Bursts()
+	sweep("bursts", b, e)
+	b, e = smfgen.MagicSpelling()
+	sweep("magic-spelling", b, e)
 	files, exps, names := smfgen.EOTEncodings()
 	for i, file := range files {
 		ctx.Eval()
